@@ -145,3 +145,55 @@ theorem inSelect_child_sound (glob : Glob) (lists : List PatList) (hv : ValidLis
   exact ⟨l, hl, Or.inr (listOn_child_sound glob l (hv l hl) names ext hne hm)⟩
 
 end Restic.Proofs.Select
+
+namespace Restic.Proofs.Select
+open Restic.Model.Filter Restic.Model.Select Restic.Proofs.C28 Restic.Props.C28
+
+/-! ### the selection functions of restore -/
+
+/-- the `break` in `selectIncludeFilter` does not change the answer -/
+theorem selectIncludeLoop_eq (glob : Glob) (names : List Str) :
+    ∀ (lists : List PatList) (s c : Bool),
+      selectIncludeLoop glob names lists s c =
+        (s || lists.any (fun l => (listOn glob l true names).1),
+         c || lists.any (fun l => (listOn glob l true names).2)) := by
+  intro lists
+  induction lists with
+  | nil => intro s c; simp [selectIncludeLoop]
+  | cons l ls ih =>
+    intro s c
+    unfold selectIncludeLoop
+    simp only [List.any_cons]
+    by_cases hb : ((s || (listOn glob l true names).1) && (c || (listOn glob l true names).2)) = true
+    · rw [if_pos hb]
+      simp only [Bool.and_eq_true] at hb
+      rw [← Bool.or_assoc, ← Bool.or_assoc, hb.1, hb.2]; simp
+    · rw [if_neg hb, ih]
+      simp [Bool.or_assoc]
+
+theorem selectInclude_eq (glob : Glob) (lists : List PatList) (names : List Str) (isDir : Bool) :
+    selectInclude glob lists names isDir =
+      (lists.any (fun l => (listOn glob l true names).1),
+       lists.any (fun l => (listOn glob l true names).2) && isDir) := by
+  unfold selectInclude
+  rw [selectIncludeLoop_eq]; simp
+
+theorem selectInclude_child_sound (glob : Glob) (lists : List PatList) (hv : ValidLists glob lists)
+    (names ext : List Str) (hne : names ≠ []) (d : Bool)
+    (h : (selectInclude glob lists (names ++ ext) d).1 = true) :
+    (selectInclude glob lists names true).2 = true := by
+  rw [selectInclude_eq] at h ⊢
+  simp only [List.any_eq_true, Bool.and_true] at h ⊢
+  rcases h with ⟨l, hl, hm⟩
+  exact ⟨l, hl, listOn_child_sound glob l (hv l hl) names ext hne hm⟩
+
+/-- a directory selected by include patterns is always traversed -/
+theorem selectInclude_matched_child (glob : Glob) (lists : List PatList) (hv : ValidLists glob lists)
+    (names : List Str) (h : (selectInclude glob lists names true).1 = true) :
+    (selectInclude glob lists names true).2 = true := by
+  rw [selectInclude_eq] at h ⊢
+  simp only [List.any_eq_true, Bool.and_true] at h ⊢
+  rcases h with ⟨l, hl, hm⟩
+  exact ⟨l, hl, listOn_matched_child glob l (hv l hl) names hm⟩
+
+end Restic.Proofs.Select
